@@ -112,7 +112,8 @@ Section Rev.
                        let '(i, (id, kvs)) := t in
                        let a1 := insert_kvs_replace a id kvs in
                        match nth_error als i with
-                       | Some al => insert_new_alias a1 id al
+                       | Some al => if fix_nodes_ids_alias rv then insert_alias rv a1 id al
+                                    else insert_new_alias a1 id al
                        | None => a1
                        end)
                      (combine (seq 0 (length query_ids)) (combine query_ids vals_list)) d in
